@@ -122,8 +122,9 @@ func (ce *ContentExtractor) ensureTitleInitialized() {
 		return
 	}
 
+	// A page that opts out gets an empty MarkupInfo, so its markup must not name the title either.
 	title := ce.Parser.Title()
-	if title != "" {
+	if title != "" && !ce.Parser.OptOut() {
 		ce.candidateTitles = append(ce.candidateTitles, title)
 	}
 
